@@ -946,21 +946,35 @@ func run(c *core.Ctx) {
 			}
 	}
 
+	type workFn = func(ctx context.Context, src string, buf *[]shipped.Event, out map[string]int64) ([]shipped.Finding, bool)
 	type job struct {
 		name string
 		lang string
-		work func(ctx context.Context, src string, buf *[]shipped.Event, out map[string]int64) ([]shipped.Finding, bool)
+		work workFn
 		mk   func(string) ccase
+	}
+	withPrefix := func(prefix string, w workFn, mk func(string) ccase) (workFn, func(string) ccase) {
+		if prefix == "" {
+			return w, mk
+		}
+		return func(ctx context.Context, src string, buf *[]shipped.Event, out map[string]int64) ([]shipped.Finding, bool) {
+			return w(ctx, prefix+src, buf, out)
+		}, func(src string) ccase { return mk(prefix + src) }
 	}
 	var jobs []job
 	for i := range shipped.ParserConfigs {
 		cfg := &shipped.ParserConfigs[i]
 		w, mk := parserWork(cfg)
+		w, mk = withPrefix(cfg.Prefix, w, mk)
 		jobs = append(jobs, job{cfg.Name, cfg.Lang, w, mk})
 	}
 	for _, lang := range []string{"tm", "js"} {
 		w, mk := astWork(lang)
 		jobs = append(jobs, job{lang + "-ast", lang, w, mk})
+		if lang == "tm" {
+			w, mk = withPrefix(shipped.TMParserPre, w, mk)
+			jobs = append(jobs, job{"tm-ast/parser", lang, w, mk})
+		}
 	}
 
 	quiet := func(lang string) func() {
@@ -987,7 +1001,7 @@ func run(c *core.Ctx) {
 		if !hasJob {
 			continue
 		}
-		for s := range lang.Seeds {
+		for s := range lang.AllSeeds() {
 			if c.Expired() {
 				c.Capped(fmt.Sprintf("%s seed %d and later: soft budget passed", lang.Name, s))
 				break
